@@ -368,6 +368,17 @@ func (engine) Body(r *simdrv.Run) {
 	usePeriodic := r.Cfg(2) == 1
 	w.interval = times[1+r.Cfg(3)]
 	perTimeout := times[r.Cfg(len(times))]
+	if usePeriodic {
+		// with a periodic timer in the system every scripted wait is clamped to 100 periods, so that the
+		// run stays within its step budget and its idle budget (3000 periods); without one the idle
+		// budget is generous instead (scripted sleeps alone add up to tens of seconds)
+		for i := range times {
+			times[i] = min(times[i], 100*w.interval)
+		}
+		for i := range w.delays {
+			w.delays[i] = min(w.delays[i], 100*w.interval)
+		}
+	}
 	w.perTemp = []metricdata.Temporality{metricdata.DeltaTemporality, metricdata.CumulativeTemporality}[r.Cfg(2)]
 	viewMode := r.Cfg(8) // 7: wildcard name + kind criterion (filter on up-down counters only), 5: drop view in front of a keeping view on one instrument, 6: three views of which two non-adjacent ones yield the same stream; 0 none, 1 filter on counter_i, 2 rename counter_f + drop hist, 3 two views on updown, 4 histogram re-aggregated as a (renamed) sum
 	w.bounds = []float64{1, 4, 16, 256, 65536}
@@ -490,7 +501,11 @@ func (engine) Body(r *simdrv.Run) {
 	for _, T := range []time.Duration{w.interval, perTimeout} {
 		ts = append(ts, time.Nanosecond, T/2, T-time.Nanosecond, T, T+time.Nanosecond, 2*T)
 	}
-	sim := r.Start(r.DrawSched(ts, 3000*w.interval, 30000))
+	maxIdle := 3000 * w.interval
+	if !usePeriodic {
+		maxIdle = 2 * time.Hour
+	}
+	sim := r.Start(r.DrawSched(ts, maxIdle, 30000))
 	w.sim = sim
 	otel.SetErrorHandler(otel.ErrorHandlerFunc(func(error) {}))
 	if w.limit > 0 {
